@@ -437,6 +437,14 @@ def custom_edge(it, vertex_ids, information=None, estimate=None, vertices=None, 
     """An instance of a user-defined edge class: an object of (a subclass of) BaseEdge initialised by BaseEdge.__init__ itself,
     so that whatever the constructor stores (plain attributes, properties with setters, ...) is what the methods later find."""
     from .interp import Obj as _Obj, sa as _sa
+    if information is None or estimate is None:
+        # a well-formed edge has a measurement and an information matrix: unless the caller supplies them they are fresh symbols
+        n_ = it.__dict__.setdefault("_custom_edges", 0)
+        it._custom_edges = n_ + 1
+        if information is None:
+            information = Arr([[Poly.var("Wc%d[%d,%d]" % (n_, min(i, j), max(i, j))) for j in range(2)] for i in range(2)], 2)
+        if estimate is None:
+            estimate = sym_vec("zc%d" % n_, 2)
     e = _Obj(cls)
     init = it.pkg.lookup(cls if cls in it.pkg.classes else "BaseEdge", "__init__")
     if init is None or init[0] != "method":
